@@ -33,7 +33,8 @@
  *   ack <p> <v> | <P>         (log::SetLogPosition {log_position: v} from p through MessageHandler)
  *   recv <p> <ts> | <accepted> <P>                  (a message with "ts" from p through MessageHandler)
  *   setbytes <file> <k> <hex|-> | <P>               (permanent damage; file: cur or a name)
- *   ls | <name:size:hash,...|-> <cursize:hash|->
+ *   ls | <names|-> <cur|->                           (which files exist; their CONTENT is compared as decoded records, see dump)
+ *   dump <now> | <vis> <out> <P>                    (every record on disk the production reader yields: ReplayLog to A from position 0)
  *   stop <now> | <newfile|-> <P>          (ApiListener::Stop via Deactivate; the process ends)
  *   crash <k> | <P>           (the process ends without Stop; only the first k bytes of current survive, -1: all)
  *   start <now> | <P>         (new process on the same directory; state attributes restored as the state file would)
@@ -161,7 +162,8 @@ struct Gen {
 		static const long long steps[] = { 1, 1, 7, 1000, 400000, 1300000, 1300000, 7000000, 30000000, 100000000 };
 		now += steps[rng.below(10)];
 	}
-	void Emit(const std::string& s) { out.push_back(s); }
+	void Emit(const std::string& s) { out.push_back(s); if (s == "ls" && dumpOk) out.push_back("dump " + std::to_string(now)); }
+	bool dumpOk = true;
 	std::string Now() { return std::to_string(now); }
 	void Header(int paFirst, int dA, int dB, int dC) {
 		now = T0 + (long long)rng.below(3) * 500000;
@@ -187,7 +189,7 @@ static void GenRandomCase(Gen& g, int len)
 	auto sec = [&]() { const char *x = kSecs[r.below(6)]; return (dropped && x[0] == 'x') ? "s" : x; };
 	for (int i = 0; i < len; i++) {
 		g.Tick();
-		if (!running) { g.Emit("start " + g.Now()); running = true; conn[0] = conn[1] = conn[2] = false; continue; }
+		if (!running) { g.Emit("start " + g.Now()); g.Emit("ls"); running = true; conn[0] = conn[1] = conn[2] = false; continue; }
 		int k = (int)r.below(100);
 		if (k < 40) g.Relay(sec());
 		else if (k < 50) { int p = (int)r.below(3); if (!conn[p]) { g.Emit(std::string("conn ") + kPeers[p]); conn[p] = true; }
@@ -210,8 +212,8 @@ static void GenRandomCase(Gen& g, int len)
 			g.Emit(std::string("recv ") + kPeers[p] + " " + std::to_string(v));
 			if (v >= rp[p]) rp[p] = v;
 		}
-		else if (k < 91) { g.Emit("stop " + g.Now()); g.Emit("ls"); running = false; }
-		else if (k < 94) { g.Emit(r.below(2) ? "crash -1" : "crash " + std::to_string(r.below(600))); g.Emit("ls"); running = false; }
+		else if (k < 91) { g.Emit("stop " + g.Now()); running = false; }
+		else if (k < 94) { g.Emit(r.below(2) ? "crash -1" : "crash " + std::to_string(r.below(600))); running = false; }
 		else if (k < 95) { g.Emit("drop"); dropped = true; }
 		else if (k < 97) { g.Emit("setcount " + std::to_string(49998 + r.below(3))); }
 		else if (k < 98) {
@@ -229,6 +231,7 @@ static void GenRandomCase(Gen& g, int len)
 		}
 	}
 	if (!running) { g.Tick(); g.Emit("start " + g.Now()); }
+	g.Tick();
 	g.Emit("ls");
 	/* final reconnect of everybody */
 	for (int p = 0; p < 3; p++) {
@@ -840,16 +843,22 @@ static void RunOp(const std::vector<std::string>& w, const std::string& line)
 		need(1);
 		FlushLog();
 		std::string files;
-		for (long long n : RotatedNames()) {
-			std::string c = ReadFile(LogDir() + "/" + std::to_string(n));
-			files += (files.empty() ? "" : ",") + std::to_string(n) + ":" + std::to_string(c.size()) + ":" + std::to_string(Fnv(c));
-		}
-		std::string cur = "-";
-		if (fs::exists(LogDir() + "/current")) {
-			std::string c = ReadFile(LogDir() + "/current");
-			cur = std::to_string(c.size()) + ":" + std::to_string(Fnv(c));
-		}
-		printf("ls | %s %s\n", files.empty() ? "-" : files.c_str(), cur.c_str());
+		for (long long n : RotatedNames()) files += (files.empty() ? "" : ",") + std::to_string(n);
+		printf("ls | %s %s\n", files.empty() ? "-" : files.c_str(), fs::exists(LogDir() + "/current") ? "cur" : "-");
+	} else if (op == "dump") {
+		/* the decoded record sequence of the whole directory, read by the production reader: ReplayLog towards peer A with
+		 * its position (and a zero log_duration) set aside for the call */
+		need(2);
+		double keepPos = l_Ep[0]->GetLocalLogPosition(), keepDur = l_Ep[0]->GetLogDuration();
+		l_Ep[0]->SetLocalLogPosition(0);
+		if (keepDur == 0) l_Ep[0]->SetLogDuration(86400);
+		bool keepSync = l_Ep[0]->GetSyncing();
+		std::string vis = VisBits(0);
+		std::string out = DoReplay(0, atoll(w[1].c_str()));
+		l_Ep[0]->SetLocalLogPosition(keepPos);
+		l_Ep[0]->SetLogDuration(keepDur);
+		{ ObjectLock olock(l_Ep[0]); l_Ep[0]->SetSyncing(keepSync); }
+		printf("%s | %s %s %s\n", line.c_str(), vis.c_str(), out.c_str(), PosStr().c_str());
 	} else if (op == "stop") {
 		need(2);
 		SetNow(Sec(atoll(w[1].c_str())));
